@@ -257,7 +257,14 @@ func (l *Listener) rejectConn(err error) {
 func (l *Listener) Accept() (net.Conn, error) {
 	select {
 	case result := <-l.conns:
-		return result.conn, result.err
+		// A failed handshake carries no connection. Return an untyped
+		// nil rather than a nil *Conn wrapped in the interface, which
+		// would compare unequal to nil.
+		if result.err != nil {
+			return nil, result.err
+		}
+
+		return result.conn, nil
 	case <-l.quit:
 		return nil, errors.New("brontide connection closed")
 	}
